@@ -127,6 +127,8 @@ class Ctx:
                    dir=d, wall=time.time() - t)
         self.tlc_runs.append(dict(module=module, label=label or module, generated=gen, distinct=dist,
                                   traces=len(traces), wall_s=round(time.time() - t, 2), ok=ok))
+        if os.environ.get("VERIF_VERBOSE"):
+            log("  tlc %-60s gen=%d distinct=%d traces=%d %.1fs ok=%s" % (label or module, gen, dist, len(traces), time.time() - t, ok))
         if not allow_violation:
             if not ok:
                 tail = "\n".join(out.splitlines()[-40:])
